@@ -7,6 +7,7 @@ from ..r_construct import rule_seeded_string_complete as _rule_seeded
 from ..r_hygiene import rule_hygiene as _rule_hygiene
 from ..r_alias import rule_retry_flush as _rule_retry_flush
 from ..r_codebooks import rule_cx_radical_lists as _rule_cxr
+from ..r_codebooks import rule_allene_reference_choice as _rule_allene_ref
 
 LEVEL = 'other'
 
@@ -26,3 +27,4 @@ def run(ck, repo):
     _rule_hygiene(ck, repo, 'C02.H-dataflow-hygiene', 'C02')
     _rule_retry_flush(ck, repo, 'C02.D5-retry-flush', ['chython.files.daylight.smiles'], 1)
     _rule_cxr(ck, repo, 'C02.D2-cx-radical-lists', ['chython.files.daylight.smiles', 'chython.files.daylight.smarts'])
+    _rule_allene_ref(ck, repo, 'C02.D3-allene-reference')
